@@ -322,7 +322,7 @@ def _build_model_driver(name, extract_v, driver_ml, stubs_c=None, packages=("uni
         rc0, dep_out = sh(["coqdep", "-Q", ".", "SqfsV", os.path.join("Extract", extract_v)], cwd=COQ)
         deps = []
         for line in dep_out.split("\n"):
-            if ":" in line and line.split(":", 1)[0].strip().endswith(".vo"):
+            if ":" in line and any(w.endswith(".vo") for w in line.split(":", 1)[0].split()):
                 deps += [w for w in line.split(":", 1)[1].split() if w.endswith(".vo") and not w.startswith(("Extract/", "Properties_"))]
         missing = [d for d in deps if not os.path.exists(os.path.join(COQ, d))
                    or os.path.getmtime(os.path.join(COQ, d)) < os.path.getmtime(os.path.join(COQ, d[:-1]))]
